@@ -600,6 +600,7 @@ func (db *MultiBucketBackend) PutObject(
 		return result, err
 	}
 	committed = true
+	verifhook.At("fs.put.before-commit")
 
 	if err := db.metaStore.commitMeta(metaPath); err != nil {
 		return result, err
